@@ -773,12 +773,19 @@ def unpatch_threads():
 
 # ---------------------------------------------------------------------------
 # pre-emption through sys.monitoring
+#
+# Only INSTRUCTION events are used.  LINE events are not deterministic across runs in
+# one process: after the adaptive interpreter has specialised an attribute load into an
+# inlined property call, CPython 3.12 reports a second LINE event for the calling line
+# when the call returns, so the number of LINE events depends on how warm the code is.
+# INSTRUCTION events carry no such history; "line granularity" is defined statically as
+# the first instruction of every entry of code.co_lines() whose line differs from the
+# previous entry, "opcode granularity" as every instruction.
 
 _mon = sys.monitoring
 TOOL = 4
-_codes = {}  # code -> (basename, wants-opcode-capable)
+_codes = {}  # code -> [basename, frozenset(line-start offsets), {offset: line}, every_instruction?]
 _trace_ready = False
-_cur_opcode_files = frozenset()
 
 
 def _discover(files):
@@ -802,51 +809,54 @@ def _discover(files):
     return out
 
 
-def _on_line(code, line):
-    s = CURRENT
-    if s is None:
-        return
-    t = s.by_ident.get(_get_ident())
-    if t is None or t.atomic:
-        return
-    s.yield_point("line", (_codes[code], line))
+def _line_starts(co):
+    starts = {}
+    prev = None
+    for a, b, line in co.co_lines():
+        if line is not None and line != prev:
+            starts[a] = line
+        prev = line
+    return starts
 
 
 def _on_instruction(code, offset):
+    info = _codes[code]
+    if not info[3] and offset not in info[1]:
+        return
     s = CURRENT
     if s is None:
         return
     t = s.by_ident.get(_get_ident())
     if t is None or t.atomic:
         return
-    s.yield_point("op", (_codes[code], -offset))
+    line = info[2].get(offset)
+    if line is not None:
+        s.yield_point("line", (info[0], line))
+    else:
+        s.yield_point("op", (info[0], code.co_firstlineno, -offset))
 
 
 def setup_tracing(line_files, opcode_files=()):
     """(Re)configure which rich source files yield at line / opcode granularity.
     Cheap (sub-millisecond) so it is called at the start of every run."""
-    global _trace_ready, _cur_opcode_files
+    global _trace_ready
+    import os
+
     if not _trace_ready:
         _mon.use_tool_id(TOOL, "dsim")
-        _mon.register_callback(TOOL, _mon.events.LINE, _on_line)
         _mon.register_callback(TOOL, _mon.events.INSTRUCTION, _on_instruction)
         _trace_ready = True
     line_files = set(line_files)
     opcode_files = set(opcode_files)
     found = _discover(line_files | opcode_files)
-    import os
-
     for co in found:
         if co not in _codes:
-            _codes[co] = os.path.basename(co.co_filename)
-    for co in list(_codes):
-        ev = 0
-        if co.co_filename in line_files or co.co_filename in opcode_files:
-            ev |= _mon.events.LINE
-        if co.co_filename in opcode_files:
-            ev |= _mon.events.INSTRUCTION
-        _mon.set_local_events(TOOL, co, ev)
-    _cur_opcode_files = frozenset(opcode_files)
+            st = _line_starts(co)
+            _codes[co] = [os.path.basename(co.co_filename), frozenset(st), st, False]
+    for co, info in _codes.items():
+        on = co.co_filename in line_files or co.co_filename in opcode_files
+        info[3] = co.co_filename in opcode_files
+        _mon.set_local_events(TOOL, co, _mon.events.INSTRUCTION if on else 0)
     return len(found)
 
 
@@ -855,7 +865,6 @@ def teardown_tracing():
     if _trace_ready:
         for co in list(_codes):
             _mon.set_local_events(TOOL, co, 0)
-        _mon.register_callback(TOOL, _mon.events.LINE, None)
         _mon.register_callback(TOOL, _mon.events.INSTRUCTION, None)
         _mon.free_tool_id(TOOL)
         _codes.clear()
